@@ -268,6 +268,8 @@ func sigContext(m MonState) string {
 		return "after-rollback"
 	case requested(m, "exit"):
 		return "during-exit"
+	case requested(m, "jump"):
+		return "after-step-jump"
 	}
 	return "plain-release"
 }
